@@ -12,7 +12,7 @@ FLAGSETS = {'0': 0, 'G': PL.G, 'G|D': PL.G | PL.D, 'G|E': PL.G | PL.E, 'G|L': PL
 
 
 def run(chk, tier, seed):
-    pats = [P.render(p) for p in globrun.small_patterns()] + ['**/.*', '.*', '**/a', '**/d/**/a', '**/**/a', 'a', '*/a', './a', 'd/./a', '{a,d/a}', '*.txt|a']
+    pats = [P.render(p) for p in globrun.small_patterns()] + ['**/.*', '.*', '**/a', '**/d/**/a', '**/**/a', 'a', '*/a', './a', 'd/./a', '{a,d/a}', '*.txt|a', '?(a)', '?(a)/a', '*(a)/*', 'd/?(a)', '@(a|)', '+(a)']
     fsets = ['G', 'G|D', 'G|E', 'G|SD|D', 'G|Q', 'GL|E'] if tier == 'quick' else list(FLAGSETS)
     specs = {k: trees.NAMED[k] for k in (('basic', 'links') if tier == 'quick' else trees.NAMED)}
     rnd = random.Random(seed * 19 + 2)
